@@ -105,3 +105,22 @@ theorem get_cases (t : Tid) (now : Int) (so : Load) (e : Entry) (h : OK e) :
 
 end Entry
 end Pike
+
+namespace Pike
+namespace Entry
+
+/-- where a hit comes from: the entry already held it, or a valid record was just loaded; and it
+is not past its expiry second -/
+theorem get_hit_prov (t : Tid) (now : Int) (so : Load) (e : Entry) (h : OK e)
+    (hh : (get t now so e).1.status = .hit) :
+    ((e.status = .hit ∧ (get t now so e).1.resp = e.resp ∧ (get t now so e).1.createdAt = e.createdAt
+        ∧ (get t now so e).1.expiredAt = e.expiredAt)
+     ∨ (e.status = .unknown ∧ ∃ rec, so = .record rec ∧ rec.status = .hit ∧ (get t now so e).1.resp = rec.resp
+        ∧ (get t now so e).1.createdAt = rec.createdAt ∧ (get t now so e).1.expiredAt = rec.expiredAt))
+    ∧ now ≤ (get t now so e).1.expiredAt ∧ (get t now so e).2 = .hit (get t now so e).1.resp := by
+  obtain ⟨a, b, c, d⟩ := h
+  unfold get getCore expireIf load at *
+  cases hs : e.status <;> cases so <;> simp_all <;> grind [Rec.valid]
+
+end Entry
+end Pike
